@@ -122,6 +122,43 @@ fn check_loc(c: &Case) -> CaseResult {
                 check_io_kind(&|| f()).map_err(|(s, m)| (format!("src={} {}", src, s), m))?;
             }
         }
+        // "the original error for I/O": a stream that fails before its first
+        // byte, or right after its last one when the text is a complete datum
+        // (the parser has to look for the end), gives an I/O-category error
+        // that converts back to the stream's own error, whatever its kind
+        {
+            use crate::props::c06::{FaultyRead, Payload, KINDS};
+            let full_ok = lexpr::from_slice_custom(input, opts).is_ok();
+            for (i, at) in [0usize, input.len()].into_iter().enumerate() {
+                if at == input.len() && (!full_ok || input.is_empty()) {
+                    continue;
+                }
+                let kind = KINDS[(digest_of(input) as usize + i) % KINDS.len()];
+                let id = 7000 + at as u64;
+                let r = lexpr::from_reader_custom(FaultyRead::new(input, &[3], &[], Some((at, kind, id))), opts);
+                let ok = match r {
+                    Ok(_) => Err("the parse succeeded".to_string()),
+                    Err(e) => {
+                        if !e.is_io() || e.is_eof() || e.is_syntax() {
+                            Err(format!("the error is classified {} ({})", category(&e), e))
+                        } else {
+                            let back: io::Error = e.into();
+                            if back.kind() == kind && back.get_ref().and_then(|x| x.downcast_ref::<Payload>()).map_or(false, |p| p.0 == id) {
+                                Ok(())
+                            } else {
+                                Err(format!("io::Error::from gives kind {:?} / {:?} instead of the stream's own error", back.kind(), back.to_string()))
+                            }
+                        }
+                    }
+                };
+                if let Err(why) = ok {
+                    return Err((
+                        format!("io-original kind={:?} at={}", kind, if at == 0 { "start" } else { "end" }),
+                        format!("the stream failed with a {:?} error at offset {} of {} bytes, but {}", kind, at, input.len(), why),
+                    ));
+                }
+            }
+        }
         // iterated: every error of the stream
         let mut p = lexpr::Parser::from_slice_custom(input, opts);
         for _ in 0..input.len() + 2 {
